@@ -25,7 +25,8 @@ RULE = ("Monitor in the PEER: every frame it receives (including frames lost in 
         "third of them with CALLER-SIDE CANCELLATION of read-only calls after 0-3 loop iterations or a short while "
         "(what asyncio.wait_for around a call does), including while a TCP connect is in progress; "
         "(b) invalid arguments: set_grid_export_limit, set_ongrid_battery_dod, set_operation_mode(ECO_CHARGE/"
-        "ECO_DISCHARGE, power, soc) and write_setting(unknown id) with integer arguments swept over [-70000, 70000] "
+        "ECO_DISCHARGE, power, soc), write_setting(unknown id) and the raw access write_setting('modbus-<n>', v) with a "
+        "register number outside 0..65535 or a value that does not fit a register, with integer arguments swept over [-70000, 70000] "
         "around the valid intervals (all boundary values +-3, powers of two, seeded values): no write frame at all, "
         "ValueError for eco power/SoC out of 0..100 and unknown ids.  Non-trivial: every case; distinct: "
         "(configuration, calls, fault kinds) / (family, setter, argument).")
@@ -40,8 +41,8 @@ LEVEL_NOTE = "Trusted: independent codec's classification of frames."
 TECHNIQUE = "deterministic simulation: device-side write monitor over read-only API histories and setter argument sweeps"
 
 STRIDE = {"quick": 11, "thorough": 1}
-N_INVALID = {"quick": 600, "thorough": 6000}
-INVALID_KINDS = ["export", "dod", "eco_power", "eco_soc", "unknown_id"]
+N_INVALID = {"quick": 600, "thorough": 30000}
+INVALID_KINDS = ["export", "dod", "eco_power", "eco_soc", "unknown_id", "raw_register", "raw_value"]
 READ_CALLS = ["read_device_info", "read_runtime_data", "read_runtime_data", "read_sensor", "read_setting_all",
               "read_settings_data", "get_grid_export_limit", "get_operation_modes", "get_operation_mode",
               "get_ongrid_battery_dod", "read_runtime_data"]
@@ -91,10 +92,17 @@ def make_case(tier, seed, index):
             "dod": [-1, -2, 101, 102, 103, 255, 256, 65536, 70000, -70000, -128, 128, 1000],
             "eco_power": [-1, -2, 101, 102, 256, 1000, 70000, -70000, -100, 200],
             "eco_soc": [-1, -2, 101, 102, 256, 1000, 70000, -70000, -100, 200],
-            "unknown_id": [0]}[kind]
+            "unknown_id": [0],
+            # the raw register access 'modbus-<n>': register numbers that do not exist / values that do not fit a register
+            "raw_register": [-1, -5, -65536, 65536, 65537, 99999, 70000, 1 << 20, (1 << 16) + 47000],
+            "raw_value": [65536, 70000, -32769, -65536, 1 << 20, -(1 << 20), 99999]}[kind]
     args = base + [rnd.choice([-1, 1]) * rnd.randrange(101, 70000) for _ in range(6)]
     if kind == "export":
         args = base + [-rnd.randrange(1, 70000) for _ in range(6)]
+    if kind == "raw_register":
+        args = base + [rnd.choice([-rnd.randrange(1, 70000), 65536 + rnd.randrange(0, 200000)]) for _ in range(6)]
+    if kind == "raw_value":
+        args = base + [rnd.choice([-32769 - rnd.randrange(0, 100000), 65536 + rnd.randrange(0, 100000)]) for _ in range(6)]
     return {"kind": "invalid", "family": fam, "setter": kind, "args": args, "transport": "udp" if index % 2 else "tcp",
             "seed": index}
 
@@ -359,6 +367,12 @@ def run_invalid(case):
                 mode = gw.OperationMode.ECO_CHARGE if a % 2 else gw.OperationMode.ECO_DISCHARGE
                 rec = await C.do_call(world, label, lambda: inv.set_operation_mode(mode, 50, a))
                 must_raise = fam != "DT"
+            elif kind == "raw_register":
+                rec = await C.do_call(world, label, lambda: inv.write_setting(f"modbus-{a}", 1))
+                must_raise = True
+            elif kind == "raw_value":
+                rec = await C.do_call(world, label, lambda: inv.write_setting("modbus-45000", a))
+                must_raise = True
             else:
                 rec = await C.do_call(world, label, lambda: inv.write_setting("no_such_setting", 1))
                 must_raise = True
